@@ -464,6 +464,12 @@ def _r04f(cx, repo):
 # -------------------------------------------------------------------------------------------- R04c
 def _emptiness(e, pol):
     """(text of X, X is empty) when the must-fact says so: len(X) == 0 / != 0 / > 0 / >= 1 / < 1, `not X`, `X`"""
+    if isinstance(e, ast.Compare) and len(e.ops) == 1 and const(e.left, int) and isinstance(e.comparators[0], ast.Call):
+        # k <op> len(X): the mirrored spelling
+        mirror = {ast.Lt: ast.Gt, ast.Gt: ast.Lt, ast.LtE: ast.GtE, ast.GtE: ast.LtE, ast.Eq: ast.Eq, ast.NotEq: ast.NotEq}.get(type(e.ops[0]))
+        if mirror is None:
+            return None
+        e = ast.Compare(left=e.comparators[0], ops=[mirror()], comparators=[e.left])
     if isinstance(e, ast.Compare) and len(e.ops) == 1 and isinstance(e.left, ast.Call) and call_name(e.left) == "len" and len(e.left.args) == 1 \
             and const(e.comparators[0], int):
         k, op = e.comparators[0].value, type(e.ops[0])
@@ -514,8 +520,10 @@ def _r04c(cx, repo, parse):
         r = _emptiness(e, pol)
         if r is not None:
             emp.append((norm(r[0]), r[1]))
-    has = any(x in (f"{recv}.values",) and is_empty for x, is_empty in emp)
-    contradict = any(x == f"{recv}.values" and not is_empty for x, is_empty in emp)
+        elif f"{recv}.values" in norm(e):
+            emp.append((norm(e), None))         # a test on the children that is not understood: neither guard nor contradiction
+    has = any(x in (f"{recv}.values",) and is_empty is True for x, is_empty in emp)
+    contradict = any(x == f"{recv}.values" and is_empty is False for x, is_empty in emp)
     if has:
         cx.ob("R04c", c, True, "the explicit empty span is given only to a node without children", stmt=norm(c)[:60] + " [guard]")
     elif contradict or not emp:
